@@ -143,7 +143,7 @@ pub fn gen_map(rng: &mut Rng, o: &GenOpts) -> String {
         if o.known_shapes && rng.chance(1, 12) {
             s.push_str("0,0,\"a\\/b.jpg\",0,0\n");
         } else {
-            s.push_str(&format!("0,0,\"{}\",0,0\n", rng.pick(&["bg.jpg", "b g.png", "dir\\bg.jpg", "a.JPG"])));
+            s.push_str(&format!("0,0,\"{}\",0,0\n", rng.pick(&["bg.jpg", "b g.png", "dir\\bg.jpg", "a.JPG", "intro.avi", "clip.MP4", "my \"best\" bg.jpg", "tab\tname.png", "x\u{200b}y.jpg", "it's.png"])));
         }
     }
     if rng.chance(1, 3) {
